@@ -17,13 +17,15 @@ RULE = ('random FileStorage histories over objects of unresolvable (Cell) and re
         'reopen. After every undo attempt: accepted => records == model (merged states recomputed by the model), full battery == '
         'model; refused => model must refuse too, battery unchanged and data file byte-identical, next commit works. At the end a '
         'DB-level probe on a copy: a second connection keeps its snapshot until its next boundary and then sees the undone '
-        'state. Non-trivial = distinct histories with at least one accepted and one refused undo.')
+        'state; additionally worlds with committers, readers and an undoer thread run under the baton scheduler (4 of 16 shards, 35% of '
+        'their budget) with the snapshot/freshness oracle of C02. Non-trivial = distinct histories with at least one accepted and one refused undo.')
 LEVEL_TEXT = ('Held on the generated histories: every undo decision and its complete observable effect are compared with a model '
               'of the statement (restore / un-create / merge / refuse-and-unchanged). Not a proof.')
 LEVEL_NOTE = ('Trusts the model and the independent record decoder. One corner has no verdict (undo of a non-current '
               'un-creation record: outcome adopted); post-pack model state is adopted from the iterator (pack itself is C07).')
 ASSUMPTIONS = ['undo of a non-current un-creation: no verdict', 'after a pack the model is re-read from the storage iterator']
-REQUIRED_COUNTERS = ('undo_accepted', 'undo_refused', 'battery_queries', 'refusal_byte_identity_checks', 'db_visibility_probes')
+REQUIRED_COUNTERS = ('undo_accepted', 'undo_refused', 'battery_queries', 'refusal_byte_identity_checks', 'db_visibility_probes', 'undo_schedules',
+                     'undo_commits_in_schedules')
 
 OPS = ['store'] * 5 + ['multi'] * 2 + ['undo'] * 6 + ['undo2'] * 2 + ['undo3', 'delete', 'restore', 'reopen', 'pack', 'resolved']
 
@@ -211,9 +213,40 @@ def run_case(sh, s, d, case):
     return (digest(dr.trace, [t.tid for t in dr.spec.txns]) if acc and ref else None, {'seed': s, 'trace': dr.trace})
 
 
+def scheduled_undo(sh, params):
+    """'other connections see it at their next boundary' under thread schedules: worlds with committers, readers and an
+    undoer under the baton scheduler; snapshot/freshness oracle of C02 over transactions that overlap an undo"""
+    import time
+    from zv import mvccload
+    rnd = random.Random(params['seed'] * 991 + params['shard'])
+    t_end = time.time() + params['budget_s'] * 0.35
+    i = 0
+    while time.time() < t_end:
+        i += 1
+        seed = (params['seed'] * 100003 + params['shard'] * 7919 + i * 104729) & 0x7fffffff
+        strategy = ('sticky', 'pct')[i % 2]
+        kw = {'stick': rnd.choice([0.5, 0.9, 0.97])} if strategy == 'sticky' else {'pct_depth': rnd.choice([1, 2, 3])}
+        kind = ('file', 'demo-file')[i % 2]
+        case = {'scheduled': True, 'seed': seed, 'kind': kind, 'strategy': strategy, 'kw': kw}
+        out = mvccload.run_schedule(seed, kind, strategy, sh.scratch, force_undo=True, **kw)
+        sh.count('undo_schedules')
+        sh.count('undo_commits_in_schedules', out.get('undos', 0))
+        for f in out['sched']:
+            sh.violation('c06:schedule:%s:%s' % (kind, f[0] if f[0] != 'thread-exception' else 'thread-raises-%s' % f[2]), {'detail': f[1:]}, case)
+        for v in out['c02']:
+            sh.violation('c06:schedule:%s:undo-not-seen-consistently-at-next-boundary:%s' % (kind, v[0]), {'witness': v[1:]}, case)
+        sh.case(digest('us', out['digest']) if out.get('undos') and out['overlap'] else None)
+
+
 def run_shard(params):
     logging.disable(logging.CRITICAL)
     sh = Shard(params)
+    if params['shard'] % 4 == 0:
+        try:
+            scheduled_undo(sh, params)
+        except Exception:
+            import traceback
+            sh.violation('c06:schedule:harness-or-world-raises', {'exc': traceback.format_exc()[-600:]}, {'scheduled': True})
     for i in case_indices(params):
         if not sh.time_left():
             break
@@ -231,5 +264,10 @@ def run_shard(params):
 def replay(case, scratch):
     logging.disable(logging.CRITICAL)
     sh = Shard({'scratch': scratch})
+    if case.get('scheduled'):
+        from zv import mvccload
+        out = mvccload.run_schedule(case['seed'], case['kind'], case['strategy'], scratch, force_undo=True, **case.get('kw', {}))
+        return ([{'mechanism': 'c06:schedule:%s:undo-not-seen-consistently-at-next-boundary:%s' % (case['kind'], v[0]), 'detail': {'witness': v[1:]}, 'case': case} for v in out['c02']] +
+                [{'mechanism': 'c06:schedule:%s:%s' % (case['kind'], f[0]), 'detail': {'detail': f[1:]}, 'case': case} for f in out['sched']])
     guarded(sh, 'c06', case, lambda: run_case(sh, case['seed'], sh.fresh_dir('c06'), case))
     return sh.violations
